@@ -50,7 +50,7 @@ pub fn dest_sel() -> impl Strategy<Value = DestSel> {
 }
 
 pub fn rec() -> impl Strategy<Value = Rec> {
-    (prop_oneof![4 => 0u8..5, 1 => 5u8..13], 0u8..5, prop::option::weighted(0.3, any::<bool>()), dest_sel()).prop_map(|(uid_sel, helper_sel, root_override, dest)| Rec {
+    (prop_oneof![4 => 0u8..5, 1 => 5u8..13], prop_oneof![24 => 0u8..5, 1 => Just(crate::rig::RAW_PATH_CALLER)], prop::option::weighted(0.3, any::<bool>()), dest_sel()).prop_map(|(uid_sel, helper_sel, root_override, dest)| Rec {
         uid_sel,
         helper_sel,
         // the kernel sets is_root = (uid == 0); an independent flag is also generated: the proxy must follow the record
@@ -149,7 +149,7 @@ pub fn strategy_c03() -> impl Strategy<Value = Case> {
     })
 }
 
-pub const RULE: &str = "generator: 6% of the cases start with an elevated caller's connection to the destination while that host is unreachable (its address is taken off the loopback device), followed by a record-less connection from the same source port once the host is back (421, nothing relayed); after one attributed case in five the connection is reset and a connection WITHOUT a record is made from the same source port (421, nothing relayed); record uids include ids without a passwd entry that mean something elsewhere (0x3e4..0x3e8, 65533, 2^32-1, 1); rule set (or none) per endpoint installed through the public set_*_rules x attribution record (12% of the non-elevated records carry a negative elevation field, 'status unknown'; 15% of the request targets are written in absolute form, naming the recorded destination or another endpoint (the decision and the destination stay those of the connection); 10% of the requests are the two signature-exempt uploads (PUT /vmAgentLog, POST /machine/?comp=telemetrydata, any letter case); in 12% of the cases the caller is a process that has been seen by the agent before and has since replaced its image with exec - same pid, another executable and command line; 85%: uid from the generated passwd, pid of a live helper process, elevation flag = (uid == 0) or independent, original destination in {WireServer, HostGAPlugin, IMDS, the proxy itself, another local address, 168.63.129.16:81, an address nobody listens on}) or no record (direct connection) x request (method, URL incl. '..' / %2e%2e / '/provision', URL and caller mostly bound to the destination's rule set, header set, body as Content-Length or chunked). The raw client binds its source port, the record is placed in the stand-in audit map for that port, then it connects to the real listener. oracle: bytes counted at the mock hosts and the client status against the reference (record present AND no literal '..' in the path AND reference authorizer != Block). non-trivial: record present, destination's rule set present and not disabled, and the reference decision depends on the rule set (flipping the default access or the caller's elevation changes it) - or one of the refusal classes with a record present (traversal, self, non-elevated to a root-only endpoint, enforced denial). 40% of the cases carry 1-3 further requests on the same keep-alive connection and 25% of those replace the rule sets after the first request; every request is judged on its own against the rules in force when it is sent. distinct by hash of the case.";
+pub const RULE: &str = "generator: 4% of the records belong to a caller whose executable path is not valid UTF-8 (its claims cannot be serialised: it may be refused outright, and what is refused is not relayed; a non-elevated one never reaches a root-only endpoint); 6% of the cases start with an elevated caller's connection to the destination while that host is unreachable (its address is taken off the loopback device), followed by a record-less connection from the same source port once the host is back (421, nothing relayed); after one attributed case in five the connection is reset and a connection WITHOUT a record is made from the same source port (421, nothing relayed); record uids include ids without a passwd entry that mean something elsewhere (0x3e4..0x3e8, 65533, 2^32-1, 1); rule set (or none) per endpoint installed through the public set_*_rules x attribution record (12% of the non-elevated records carry a negative elevation field, 'status unknown'; 15% of the request targets are written in absolute form, naming the recorded destination or another endpoint (the decision and the destination stay those of the connection); 10% of the requests are the two signature-exempt uploads (PUT /vmAgentLog, POST /machine/?comp=telemetrydata, any letter case); in 12% of the cases the caller is a process that has been seen by the agent before and has since replaced its image with exec - same pid, another executable and command line; 85%: uid from the generated passwd, pid of a live helper process, elevation flag = (uid == 0) or independent, original destination in {WireServer, HostGAPlugin, IMDS, the proxy itself, another local address, 168.63.129.16:81, an address nobody listens on}) or no record (direct connection) x request (method, URL incl. '..' / %2e%2e / '/provision', URL and caller mostly bound to the destination's rule set, header set, body as Content-Length or chunked). The raw client binds its source port, the record is placed in the stand-in audit map for that port, then it connects to the real listener. oracle: bytes counted at the mock hosts and the client status against the reference (record present AND no literal '..' in the path AND reference authorizer != Block). non-trivial: record present, destination's rule set present and not disabled, and the reference decision depends on the rule set (flipping the default access or the caller's elevation changes it) - or one of the refusal classes with a record present (traversal, self, non-elevated to a root-only endpoint, enforced denial). 40% of the cases carry 1-3 further requests on the same keep-alive connection and 25% of those replace the rule sets after the first request; every request is judged on its own against the rules in force when it is sent. distinct by hash of the case.";
 
 pub fn dest_of(d: DestSel) -> Dest {
     let (ip, port) = d.addr();
@@ -379,6 +379,27 @@ fn eval_one(rig: &Rig, case: &Case, req: &GReq, rules: &(Option<GDoc>, Option<GD
     let requests = rig.mock.take_requests();
     let obs = Observed { status: status_opt, delta, requests, client_error, response: resp.ok() };
     let reusable = req.body.is_empty() && obs.status.is_some();
+    // a caller whose executable path is not valid UTF-8: its claims cannot be written down (the agent answers 421); whatever the
+    // rules say about it, it is not a caller anybody authorised by name, and the statement's other direction - nothing is relayed
+    // for a refused request - is what is judged
+    if case.rec.map(|r| r.helper_sel as usize % rig.helpers.procs.len() == crate::rig::RAW_PATH_CALLER as usize).unwrap_or(false) && !case.morph {
+        stats.class("caller:executable-path-not-valid-utf8");
+        stats.class(&format!("caller:executable-path-not-valid-utf8:answered-{}", obs.status.map(|s| s.to_string()).unwrap_or_else(|| "nothing".into())));
+        let total_up: u64 = obs.delta.values().sum();
+        let refused = matches!(obs.status, Some(s) if (400..600).contains(&s));
+        if refused && (total_up > 0 || !obs.requests.is_empty()) {
+            return (Outcome::fail("mediation:bytes-sent-upstream-for-refused:caller-without-printable-claims", format!("status {:?} but {} bytes reached a host for {} {}", obs.status, total_up, req.method, target)), reusable);
+        }
+        if !refused && wire_target != "/provision" {
+            // relayed: then it has to be a request the reference authorises for this caller's (unprintable) claims
+            let dest_ok = case.rec.map(|r| !matches!(r.dest, DestSel::SelfProxy)).unwrap_or(false);
+            let elevated_ok = case.rec.map(|r| r.is_root || !matches!(r.dest, DestSel::WireServer | DestSel::GaPlugin)).unwrap_or(false);
+            if !dest_ok || !elevated_ok {
+                return (Outcome::fail("mediation:bytes-sent-upstream-for-refused:caller-without-printable-claims", format!("status {:?}, {} bytes upstream for {} {} from a non-elevated / self-addressed caller {:?}", obs.status, total_up, req.method, target, case.rec)), reusable);
+            }
+        }
+        return (Outcome::Pass, reusable);
+    }
     let o = judge(rig, case, req, &target, &wire_target, dest_rules, &claims, &obs, index, stats);
     (o, reusable)
 }
